@@ -200,6 +200,22 @@ fn make_env(fuel: Option<u64>) -> Environment<'static> {
     env
 }
 
+/// `make_env` plus 300 identity filters `wf0…` and 300 tests `wt0…` (width probes need more distinct
+/// *existing* filter / test names than the builtins offer)
+fn make_wide_env() -> Environment<'static> {
+    let mut env = make_env(None);
+    for i in 0..300 {
+        env.add_filter(format!("wf{}", i), |v: Value| v);
+        env.add_test(format!("wt{}", i), |_v: Value| true);
+    }
+    env
+}
+
+fn wide_name(prefix: &str, i: usize) -> String {
+    // beyond the registered ones the names are unknown to the environment (the compiler does not care)
+    if i < 300 { format!("w{}{}", prefix, i) } else { format!("u{}{}", prefix, i) }
+}
+
 // ------------------------------------------------------------------------------------ running
 /// stream 5: format an error every way a host application could
 fn fmt_error(e: &Error) -> usize {
@@ -468,6 +484,41 @@ fn run_kernel(f: &[&str]) -> String {
             let src = "{% for x in it %}{{ loop.index0 }}:{{ loop.index }}:{{ loop.length }}:{{ loop.revindex }}:{{ loop.revindex0 }}:{{ loop.first }}:{{ loop.last }}:{{ loop.depth }}:{{ loop.depth0 }};{% endfor %}";
             let out = env.render_str(src, context! { it => it })?;
             Ok(format!("ok:{}", out))
+        })),
+        // k localid <filter|test> K → ok:<local id of every ApplyFilter / PerformTest of a template that uses K
+        // distinct names, in instruction order> (compared with the model of `get_local_id`)
+        "localid" => finish(guarded(|| {
+            let k: usize = f[2].parse().unwrap();
+            let mut src = String::new();
+            for i in 0..k {
+                if f[1] == "filter" {
+                    src.push_str(&format!("{{{{ x|{} }}}}", wide_name("f", i)));
+                } else {
+                    src.push_str(&format!("{{{{ x is {} }}}}", wide_name("t", i)));
+                }
+            }
+            // every name once more, in reverse: ids are per name, not per use
+            for i in (0..k).rev().take(3) {
+                if f[1] == "filter" {
+                    src.push_str(&format!("{{{{ x|{} }}}}", wide_name("f", i)));
+                } else {
+                    src.push_str(&format!("{{{{ x is {} }}}}", wide_name("t", i)));
+                }
+            }
+            let mut env = make_wide_env();
+            env.add_template_owned("case.txt".to_string(), src)?;
+            let t = env.get_template("case.txt")?;
+            let c = minijinja::machinery::get_compiled_template(&t);
+            let mut ids = vec![];
+            let mut pc = 0u32;
+            while let Some(i) = c.instructions.get(pc) {
+                match i {
+                    minijinja::machinery::Instruction::ApplyFilter(_, _, id) | minijinja::machinery::Instruction::PerformTest(_, _, id) => ids.push(id.to_string()),
+                    _ => {}
+                }
+                pc += 1;
+            }
+            Ok(format!("ok:{}", ids.join(",")))
         })),
         // k loopesc LEN SIZED BRK → ok:<attrs of the loop object read AFTER its loop> (the object escapes
         // through a namespace; BRK = leave at the first item, otherwise the loop is exhausted)
@@ -740,6 +791,46 @@ fn depth_source(kind: &str, n: usize) -> (String, bool) {
     // stkmax:<chain>:<group>:<placement> n — the same shape with the limit shared among the n chains:
     // about the deepest input the parser accepts
     let parts: Vec<&str> = kind.split(':').collect();
+    if parts[0] == "w" && parts.len() == 2 {
+        // width probes: n distinct / adjacent things of one kind in one template
+        let each = |f: &dyn Fn(usize) -> String| -> String { (0..n).map(f).collect::<Vec<_>>().join("") };
+        let list = |f: &dyn Fn(usize) -> String| -> String { (0..n).map(f).collect::<Vec<_>>().join(", ") };
+        let src = match parts[1] {
+            "filters" => each(&|i| format!("{{{{ x|{} }}}}", wide_name("f", i))),
+            "tests" => each(&|i| format!("{{{{ x is {} }}}}", wide_name("t", i))),
+            "filterchain" => format!("{{{{ x{} }}}}", each(&|i| format!("|{}", wide_name("f", i)))),
+            "filterblk" => format!("{{% filter {} %}}v{{% endfilter %}}", (0..n.max(1)).map(|i| wide_name("f", i)).collect::<Vec<_>>().join("|")),
+            "macros" => format!("{}{}", each(&|i| format!("{{% macro m{}() %}}{}{{% endmacro %}}", i, i)), each(&|i| format!("{{{{ m{}() }}}}", i))),
+            "blocks" => each(&|i| format!("{{% block b{} %}}{}{{% endblock %}}", i, i)),
+            "vars" => each(&|i| format!("{{{{ v{} }}}}", i)),
+            "sets" => format!("{}{}", each(&|i| format!("{{% set v{} = {} %}}", i, i)), each(&|i| format!("{{{{ v{} }}}}", i))),
+            "kwargs" => format!("{{{{ dict({})|length }}}}", list(&|i| format!("k{}={}", i, i))),
+            "callargs" => format!("{{{{ echo({})|length }}}}", list(&|i| i.to_string())),
+            "macroargs" => format!("{{% macro mm({}) %}}{{{{ a0 }}}}{{% endmacro %}}{{{{ mm({}) }}}}", list(&|i| format!("a{}", i)), list(&|i| i.to_string())),
+            "macrodefaults" => format!("{{% macro mm({}) %}}{{{{ a0 }}}}{{% endmacro %}}{{{{ mm() }}}}", list(&|i| format!("a{}={}", i, i))),
+            "callblkargs" => format!("{{% macro mm() %}}{{{{ caller({}) }}}}{{% endmacro %}}{{% call({}) mm() %}}{{{{ a0 }}}}{{% endcall %}}", list(&|i| i.to_string()), list(&|i| format!("a{}", i))),
+            "with" => format!("{{% with {} %}}{{{{ a0 }}}}{{% endwith %}}", list(&|i| format!("a{}={}", i, i))),
+            "looptargets" => format!("{{% for {} in [range({})|list] %}}{{{{ a0 }}}}{{% endfor %}}", list(&|i| format!("a{}", i)), n),
+            "unpack" => format!("{{% set {} = range({}) %}}{{{{ a0 }}}}", list(&|i| format!("a{}", i)), n),
+            "includelist" => format!("{{% include [{}'inc.txt'] %}}", each(&|i| format!("'nosuch{}', ", i))),
+            "includes" => each(&|_| "{% include 'inc.txt' %}".to_string()),
+            "imports" => format!("{{% from 'wide.txt' import {} %}}{{{{ m0() }}}}", list(&|i| format!("m{}", i))),
+            "importas" => each(&|i| format!("{{% import 'macros.txt' as i{} %}}", i)),
+            "nsattrs" => format!("{{% set ns = namespace() %}}{}{{{{ ns|length }}}}", each(&|i| format!("{{% set ns.a{} = {} %}}", i, i))),
+            "nskwargs" => format!("{{{{ namespace({})|length }}}}", list(&|i| format!("a{}={}", i, i))),
+            "closure" => format!("{}{{% macro cl() %}}{}{{% endmacro %}}{{{{ cl()|length }}}}", each(&|i| format!("{{% set v{} = {} %}}", i, i)), each(&|i| format!("{{{{ v{} }}}}", i))),
+            "dotted" => format!("{{{{ x|a{} }}}}", each(&|_| ".b".to_string())),
+            "loops" => each(&|_| "{% for q in [1] %}{{ loop.index }}{% endfor %}".to_string()),
+            "ifs" => each(&|i| format!("{{% if x == {} %}}a{{% endif %}}", i)),
+            "lines" => each(&|i| format!("{{{{ {} }}}}\n", i)),
+            "longline" => format!("{}{{{{ 1 + }}}}", " ".repeat(n)),
+            "longname" => format!("{{{{ {} }}}}{{{{ x.{} }}}}{{{{ x|{} }}}}", "v".repeat(n.max(1)), "a".repeat(n.max(1)), "f".repeat(n.max(1))),
+            "longstr" => format!("{{{{ '{}'|length }}}}", "s".repeat(n)),
+            "bigint" => format!("{{{{ {} }}}}", "9".repeat(n.max(1))),
+            _ => String::new(),
+        };
+        return (src, true);
+    }
     if (parts[0] == "stk" || parts[0] == "stkmax") && parts.len() == 4 {
         let limit = max_expr_nesting();
         let per = if parts[0] == "stk" { limit.saturating_sub(1) } else { (limit / n.max(1)).saturating_sub(2) };
@@ -837,6 +928,50 @@ fn depth_source(kind: &str, n: usize) -> (String, bool) {
     }
 }
 
+pub const WIDTH_KINDS: &[&str] = &[
+    "filters", "tests", "filterchain", "filterblk", "macros", "blocks", "vars", "sets", "kwargs", "callargs", "macroargs", "macrodefaults",
+    "callblkargs", "with", "looptargets", "unpack", "includelist", "includes", "imports", "importas", "nsattrs", "nskwargs", "closure",
+    "dotted", "loops", "ifs", "lines", "longline", "longname", "longstr", "bigint",
+];
+
+/// integer constants of `compiler/` and `vm/` (and the limits in `utils.rs`): `const NAME: T = N`,
+/// `with_capacity(N)`, `> N` / `>= N` comparisons with literals, plus the widths of the integer types
+/// used for ids, argument counts and spans — the quantities a template's *width* can run into
+fn width_constants() -> Vec<usize> {
+    let sources = [
+        include_str!("/repo/minijinja/src/compiler/codegen.rs"), include_str!("/repo/minijinja/src/compiler/instructions.rs"),
+        include_str!("/repo/minijinja/src/compiler/lexer.rs"), PARSER_RS, include_str!("/repo/minijinja/src/compiler/tokens.rs"),
+        include_str!("/repo/minijinja/src/compiler/meta.rs"), include_str!("/repo/minijinja/src/vm/mod.rs"),
+        include_str!("/repo/minijinja/src/vm/context.rs"), include_str!("/repo/minijinja/src/vm/state.rs"),
+        include_str!("/repo/minijinja/src/vm/macro_object.rs"), include_str!("/repo/minijinja/src/vm/loop_object.rs"),
+        include_str!("/repo/minijinja/src/utils.rs"), include_str!("/repo/minijinja/src/environment.rs"),
+    ];
+    let mut v: Vec<usize> = vec![255, 256, 65535, 65536]; // u8 (LocalId), u16 (argument counts, lines, columns)
+    for src in sources {
+        for pat in ["with_capacity(", "= ", "> ", ">= ", ".min("] {
+            let mut i = 0;
+            while let Some(p) = src[i..].find(pat) {
+                let rest = &src[i + p + pat.len()..];
+                let digits: String = rest.chars().take_while(|c| c.is_ascii_digit() || *c == '_').filter(|c| *c != '_').collect();
+                let after = rest.chars().nth(digits.len());
+                if !digits.is_empty() && digits.len() <= 6 && matches!(after, Some(';') | Some(')') | Some(' ') | Some('{')) {
+                    if pat != "= " || src[..i + p].rsplit('\n').next().map_or(false, |l| l.contains("const ")) {
+                        if let Ok(n) = digits.parse::<usize>() {
+                            if n >= 2 {
+                                v.push(n);
+                            }
+                        }
+                    }
+                }
+                i += p + pat.len();
+            }
+        }
+    }
+    v.sort();
+    v.dedup();
+    v
+}
+
 pub const DEPTH_KINDS: &[&str] = &[
     "paren", "not", "neg", "negc", "add", "addv", "mul", "pow", "concat", "and", "or", "cmp", "attr", "item", "dotint",
     "call", "slice", "filter", "test", "testarg", "ifexpr", "ifexprl", "list", "map", "tuple", "callarg", "kwarg",
@@ -853,7 +988,11 @@ fn run_depth(kind: &str, n: usize) -> String {
     }
     if is_tmpl {
         finish(guarded(|| {
-            let mut env = make_env(None);
+            let mut env = if kind.starts_with("w:") { make_wide_env() } else { make_env(None) };
+            if kind == "w:imports" {
+                let wide: String = (0..n).map(|i| format!("{{% macro m{}() %}}{}{{% endmacro %}}", i, i)).collect();
+                env.add_template_owned("wide.txt".to_string(), wide)?;
+            }
             env.add_template_owned("case.txt".to_string(), src)?;
             let out = env.get_template("case.txt")?.render(ctx_zoo(0))?;
             Ok(format!("ok:{}", out.len()))
@@ -1092,7 +1231,10 @@ fn dump_streams(thorough: bool) {
                 sources.push((c.clone(), format!("{{{{ {} }}}}", s)));
             }
         } else if f[0] == "d" && f.len() == 3 {
-            let ns: &[usize] = if f[1].starts_with("stk") { &[2] } else { &[3, 40] };
+            let ns: &[usize] = if f[1].starts_with("stk") { &[2] } else if f[1].starts_with("w:") { &[60] } else { &[3, 40] };
+            if f[1].starts_with("w:") && f[2] != "50" {
+                continue; // one dump per width kind
+            }
             for &n in ns {
                 let (s, is_t) = depth_source(f[1], n);
                 sources.push((format!("d {} {}", f[1], n), if is_t { s } else { format!("{{{{ {} }}}}", s) }));
@@ -2062,6 +2204,39 @@ fn gen_cases(thorough: bool) -> Vec<String> {
             cases.push(format!("d stkmax:{}:paren:{} 40", ck, pl));
         }
     }
+    // (4c) width probes: for every integer constant N of compiler/ and vm/ the counts N-1, N, N+1 of every
+    // kind of thing a template can have many of (plus a few large ones)
+    {
+        let mut ks: Vec<usize> = vec![0, 1, 1000];
+        for n in width_constants() {
+            if n <= 2100 || thorough {
+                ks.extend_from_slice(&[n - 1, n, n + 1]);
+            }
+        }
+        if thorough {
+            ks.push(10_000);
+        }
+        ks.sort();
+        ks.dedup();
+        for kind in WIDTH_KINDS {
+            for &k in &ks {
+                if k > 70_000 || (k > 2100 && !thorough && !matches!(*kind, "vars" | "lines" | "longline" | "longname")) {
+                    continue;
+                }
+                cases.push(format!("d w:{} {}", kind, k));
+            }
+        }
+        for k in [65_534usize, 65_535, 65_536, 65_537] {
+            for kind in ["vars", "lines", "longline", "longname", "longstr"] {
+                cases.push(format!("d w:{} {}", kind, k));
+            }
+        }
+    }
+    for kind in ["filter", "test"] {
+        for k in (0..=80).chain([254, 255, 256, 257, 299, 300]) {
+            cases.push(format!("k localid {} {}", kind, k));
+        }
+    }
     // (1) kernels
     gen_kernel_cases(&mut cases, thorough);
     // (2) builtins, format strings
@@ -2119,6 +2294,9 @@ fn main() {
         Some("streams") => {
             install_hook();
             dump_streams(args.get(2).map(|s| s == "thorough").unwrap_or(false));
+        }
+        Some("constants") => {
+            println!("{:?}", width_constants());
         }
         Some("info") => {
             // facts about the build the Lean model assumes
